@@ -12,7 +12,7 @@ def rand_class(rng):
     for _ in range(40):
         small = rng.random() < 0.5
         name, src, fields, okw = (fieldgen.small_class(rng) if small else fieldgen.rand_class(rng))
-        okw = {k: v for k, v in okw.items() if k not in ("collect_errors", "max_errors")}
+        okw = {k: v for k, v in okw.items() if k not in ("max_errors",)}
         if rng.random() < 0.08:
             okw["immutable"] = True
         if rng.random() < 0.2:
